@@ -137,6 +137,37 @@ mod verif_nx_config {
             }
             n += 1;
         }
+        // --config-file REPLACES the discovered pasfmt.toml (it is not layered on top of it); without it the discovered file is used.
+        // The working directory is switched for this block only (nothing else in this test binary reads relative paths).
+        {
+            let proj = root.join("proj");
+            let sub = proj.join("src").join("deep");
+            std::fs::create_dir_all(&sub).unwrap();
+            let discovered = proj.join("pasfmt.toml");
+            let explicit2 = root.join("explicit2.toml");
+            std::fs::write(&explicit2, "tab_width = 4\n").unwrap();
+            let old = std::env::current_dir().unwrap();
+            std::env::set_current_dir(&sub).unwrap();
+            std::fs::write(&discovered, "wrap_column = 40\nline_ending = \"crlf\"\n").unwrap();
+            let with_explicit = parse(&["--config-file".to_string(), explicit2.to_string_lossy().to_string()]).and_then(|c| c.get_config_object().map_err(|e| format!("{e:#}")));
+            let without = parse(&[]).and_then(|c| c.get_config_object().map_err(|e| format!("{e:#}")));
+            std::fs::write(&discovered, "nonsense = 1\n").unwrap();
+            let invalid_discovered = parse(&["--config-file".to_string(), explicit2.to_string_lossy().to_string()]).and_then(|c| c.get_config_object().map_err(|e| format!("{e:#}")));
+            std::env::set_current_dir(&old).unwrap();
+            let d = FormattingConfig::default();
+            match with_explicit {
+                Ok(c) => assert!(c.tab_width == 4 && c.wrap_column == d.wrap_column && matches!(c.line_ending, LineEnding::Native),
+                    "OB config/precedence: with --config-file the discovered pasfmt.toml plays no part (file value, else default)\n resolved={:?}", c),
+                Err(e) => panic!("OB config/valid_accepted: a valid --config-file is accepted\n err={}", e),
+            }
+            match without {
+                Ok(c) => assert!(c.wrap_column == 40 && matches!(c.line_ending, LineEnding::Crlf) && c.tab_width == d.tab_width,
+                    "OB config/nearest_ancestor: without --config-file the nearest pasfmt.toml above the working directory is used\n resolved={:?}", c),
+                Err(e) => panic!("OB config/valid_accepted: a valid discovered file is accepted\n err={}", e),
+            }
+            assert!(invalid_discovered.is_ok(), "OB config/precedence: with --config-file the discovered pasfmt.toml is not even read\n err={:?}", invalid_discovered.err());
+            n += 3;
+        }
         // files mode needs paths
         assert!(parse(&["--mode=files".to_string()]).is_err(), "OB config/files_mode_needs_paths: files mode is rejected when reading from stdin");
         assert!(parse(&["--mode=check".to_string()]).is_ok() && parse(&["x.pas".to_string()]).is_ok(), "OB config/files_mode_needs_paths: other combinations are accepted");
